@@ -1,4 +1,5 @@
 import Pegnet.Codec
+import Proofs.JsonKeys
 import Pegnet.Batch
 /-
   C20 — Canonical encoding and exact amounts at the edges.
@@ -142,6 +143,81 @@ theorem valid_batch_shape (P : Params) (e : TxEntry) (h : Nat) (v : Nat) (txs : 
   · intro t ht
     exact List.all_eq_true.1 h3 t ht
 
+/-! ### the JSON decoders (Pegnet/Json.lean), over the token tree
+
+  `decBatch` / `decTx` / `decTyped` / `decTuple` model `UnmarshalJSON` of `TransactionBatch`,
+  `Transaction`, `TypedAddressAmountTuple`, `AddressAmountTuple`; the codec scenario runs them
+  against the Go decoders on every generated document. `J.WF` is the tokeniser's contract (a
+  lexeme is at least two bytes longer than what it decodes to). -/
+
+/-- **The expected-length accounting is a sound duplicate / unknown key filter.** If an object
+    supplies every one of the (distinct) expected names and is no longer than an object made of
+    exactly those keys, once each, with the values the decoder picked, then it has exactly those
+    keys, once each, and no other — keys compared the way `encoding/json` matches them. -/
+theorem length_accounting_sound (names : List String) (hnd : names.Nodup) (hne : names ≠ []) (fs : List Field)
+    (hwf : ∀ f ∈ fs, Field.wf f) (vals : String → J) (hpres : ∀ n ∈ names, lookupField fs n = some (vals n))
+    (hlen : J.len (.obj fs) ≤ 2 + (names.map (fun n => n.length + 3 + J.len (vals n))).sum + (names.length - 1)) :
+    exactKeys names fs :=
+  accounting_sound names hnd hne fs hwf vals hpres hlen
+
+/-- **A FAT-2 batch is accepted only in canonical form.** For every document
+    `TransactionBatch.UnmarshalJSON` accepts whose transactions each have transfers or a conversion
+    (`Transaction.Validate`): the batch has exactly the keys `version`, `transactions`; every
+    transaction exactly `input`, exactly ONE of `transfers` / `conversion` (the one its decoded form
+    uses), optionally one `metadata`; every input exactly `address`, `amount`, `type` — no
+    duplicate and no unknown key on any level. (Known tickers, amounts within int64, one input
+    address: `valid_batch_shape`, `transfers_xor_conversion` above, on the decoded form.) -/
+theorem accepted_only_in_canonical_form {P : Params} {j : J} {v : Nat} {txs : List Tx} (hwf : J.WF j)
+    (h : decBatch P j = some (v, txs)) (hne : txs ≠ [])
+    (hval : ∀ t ∈ txs, t.transfers ≠ [] ∨ t.isConversion P = true) :
+    ∃ fs items, j = .obj fs ∧ exactKeys ["version", "transactions"] fs ∧
+      lookupField fs "transactions" = some (.arr items) ∧ AllPairs (CanonicalTx P) items txs :=
+  accepted_is_canonical hwf h hne hval
+
+/-- transfer outputs: exactly `address` and `amount` -/
+theorem accepted_output_keys {P : Params} {j : J} {tr : Transfer} (hwf : J.WF j) (h : decTuple P j = some tr) :
+    ∃ fs, j = .obj fs ∧ exactKeys ["address", "amount"] fs := decTuple_keys hwf h
+
+/-- **The repaired defect (fix 85f24f7), as a theorem.** An input object without a `type` key is
+    refused whatever else it contains. (Before the repair an unknown key of compensating length —
+    23 characters with a one-digit value — made the length check pass with the type left at the
+    invalid zero value: the soundness statement above could not be proved, and the counterexample
+    the failed proof pointed at was replayed on the implementation.) -/
+theorem input_without_type_is_refused (P : Params) (fs : List Field) (h : lookupField fs "type" = none) :
+    decTyped P (.obj fs) = none := by
+  unfold decTyped
+  simp only [h]
+  cases lookupField fs "address" with
+  | none => simp
+  | some aj =>
+    cases lookupField fs "amount" with
+    | none => simp
+    | some nj =>
+      simp only
+      cases decAddr P aj with
+      | none => simp
+      | some a =>
+        cases decUint nj with
+        | none => simp
+        | some n => simp [validTicker]
+
+/-! executed (not kernel-checked) examples: a canonical conversion batch is accepted; the same input
+    with its `type` key replaced by a padding key of compensating length is refused -/
+def xP : Params :=
+  { act := ⟨0,0,0,0,0,0,0,0,0,0,0,0,0,0,0,0,0⟩, tickerMax := 4, tickerNames := ["PEG", "pUSD", "pEUR"], oneWaySet := [],
+    snapshotRate := 144, perBlockHolders := 0, perBlockDevs := 0, bankBase := 0, avgPeriod := 8, avgRequired := 4,
+    syncVersion := 2, devs := [], «mint» := [], burnAddr := "b", oldBurnAddr := "o", mintAddr := "m", coinbaseAddr := "c", zeroAddr := "0" }
+def xInput : J := .obj [("\"address\"", "address", .str "\"FA1\"" "FA1" (some "aa")), ("\"amount\"", "amount", .num "5"),
+  ("\"type\"", "type", .str "\"pUSD\"" "pUSD" none)]
+def xBatch : J := .obj [("\"version\"", "version", .num "1"),
+  ("\"transactions\"", "transactions", .arr [.obj [("\"input\"", "input", xInput), ("\"conversion\"", "conversion", .str "\"pEUR\"" "pEUR" none)]])]
+def xPadded : J := .obj [("\"address\"", "address", .str "\"FA1\"" "FA1" (some "aa")), ("\"amount\"", "amount", .num "5"),
+  ("\"aaaaaaaaaaaaaaaaaaaaaaa\"", "aaaaaaaaaaaaaaaaaaaaaaa", .num "1")]
+#guard (decBatch xP xBatch).isSome
+#guard (decTyped xP xInput).isSome
+#guard (decTyped xP xPadded).isNone
+#guard J.len xPadded = 32 + J.len (.str "\"FA1\"" "FA1" none) + 1 + ("invalid token type".utf8ByteSize)
+
 end Pegnet.C20
 
 #print axioms Pegnet.C20.amount_exact
@@ -149,3 +225,7 @@ end Pegnet.C20
 #print axioms Pegnet.C20.transfers_xor_conversion
 #print axioms Pegnet.C20.remaining_spec
 #print axioms Pegnet.C20.valid_batch_shape
+#print axioms Pegnet.C20.length_accounting_sound
+#print axioms Pegnet.C20.accepted_only_in_canonical_form
+#print axioms Pegnet.C20.accepted_output_keys
+#print axioms Pegnet.C20.input_without_type_is_refused
